@@ -159,6 +159,7 @@ pub fn on_stack<T: Send>(bytes: usize, f: impl FnOnce() -> T + Send) -> Result<T
 }
 
 pub const SMALL_STACK: usize = 2 * 1024 * 1024;
+pub const NONTRIVIAL_HASH_CAP: usize = 200_000;
 
 pub fn thread_cpu_ns() -> u64 {
     let mut ts = libc::timespec {
@@ -266,12 +267,19 @@ impl Ctx {
         self.evals += 1;
     }
 
+    /// Distinct non-trivial cases are de-duplicated by hash; at most `NONTRIVIAL_HASH_CAP` hashes
+    /// are kept per worker (the orchestrator unions them across workers), further ones are only
+    /// counted in `nontrivial_cases_not_hashed_over_cap`, so `distinct_nontrivial` is a lower bound.
     pub fn nontrivial_hash(&mut self, h: u64) {
-        self.nontrivial.insert(h);
+        if self.nontrivial.len() < NONTRIVIAL_HASH_CAP {
+            self.nontrivial.insert(h);
+        } else if !self.nontrivial.contains(&h) {
+            *self.counters.entry("nontrivial_cases_not_hashed_over_cap".to_string()).or_insert(0) += 1;
+        }
     }
 
     pub fn nontrivial(&mut self, s: &str) {
-        self.nontrivial.insert(fnv64(s.as_bytes()));
+        self.nontrivial_hash(fnv64(s.as_bytes()));
     }
 
     pub fn count(&mut self, key: &str, n: u64) {
